@@ -66,6 +66,11 @@ fn case_obs<T: Obs>(mc: &MemCase<T>) -> String {
         set_buf(addr, len);
     }
     let t: &T = mc;
+    // Deref and AsRef hand out the same structure
+    let t2: &T = mc.as_ref();
+    if !core::ptr::eq(t, t2) {
+        return "DEREF-AND-ASREF-DIFFER".into();
+    }
     crate::codec::erase_refs_checked(&show(t))
 }
 
@@ -96,7 +101,19 @@ where
     let n = reference.len();
     // load_full
     let lf = catch_unwind(AssertUnwindSafe(|| D::load_full(&path)));
-    parts.push(format!("full={}", match lf { Ok(Ok(x)) => { set_buf(0, 0); format!("OK:{}", show(&x)) } Ok(Err(e)) => format!("E:{}", anyhow_code(&e)), Err(_) => "P".into() }));
+    parts.push(format!("full={}", match lf {
+        Ok(Ok(x)) => {
+            set_buf(0, 0);
+            let shown = show(&x);
+            // a fully loaded structure encased without backend: same structure, no backing region
+            let enc = MemCase::encase(x);
+            let enc2: MemCase<_> = MemCase::from(0u8);
+            let same = enc.verif_backing_range().is_none() && enc2.verif_backing_range().is_none() && show(&*enc) == shown && *enc2 == 0 && Flags::default() == Flags::empty();
+            if same { format!("OK:{}", shown) } else { "ENCASE-DIFFERS".to_string() }
+        }
+        Ok(Err(e)) => format!("E:{}", anyhow_code(&e)),
+        Err(_) => "P".into(),
+    }));
     let _ = (l0, m0, f0);
     // the three loaders that keep a backing region, every flag set
     for bits in 0u32..8 {
